@@ -4,15 +4,16 @@ import "strings"
 
 // HarnessSpec says how one harness is run for a property.
 type HarnessSpec struct {
-	Name        string
-	Covers      []string // labels that must be reached (vacuity guard)
-	Terminates  bool     // a path that exhausts the step budget is a violation (termination obligation)
-	MustViolate string   // engine self-validation: the harness MUST end in a violation whose message contains this text (it is not a property violation and is not replayed)
-	Concurrent  bool     // the harness runs goroutines: natively the schedule is Go's, so witness replays are compared by outcome kind only and violations are replayed many times
-	MaxPathsQ   int      // path budgets (0 = default)
-	MaxPathsT   int
-	StepsQ      int
-	StepsT      int
+	Name         string
+	Covers       []string // labels that must be reached (vacuity guard)
+	Terminates   bool     // a path that exhausts the step budget is a violation (termination obligation)
+	ThoroughOnly bool     // run in the thorough tier only
+	MustViolate  string   // engine self-validation: the harness MUST end in a violation whose message contains this text (it is not a property violation and is not replayed)
+	Concurrent   bool     // the harness runs goroutines: natively the schedule is Go's, so witness replays are compared by outcome kind only and violations are replayed many times
+	MaxPathsQ    int      // path budgets (0 = default)
+	MaxPathsT    int
+	StepsQ       int
+	StepsT       int
 }
 
 // PropSpec describes the check of one property.
@@ -518,4 +519,10 @@ func init() {
 	ext("C09", "WebSocket entry after a real upgrade (gobwas/ws interpreted): arbitrary client bytes - a symbolic 2-byte frame header (every opcode, FIN / RSV and mask bit, declared length 0..9) plus 0..5 (6) symbolic bytes, and frames announcing 125 bytes, a 16-bit and a 64-bit extended length with 2..3 bytes sent - then the connection ends",
 		HarnessSpec{Name: "VerifH_ws_raw", Terminates: true, Covers: []string{"no-message", "long-announced", "extended-16", "extended-64"}})
 	replaceOutside("C09", "the HTTP/2 server, ws.UpgradeHTTP and WebSocket frame I/O", "the HTTP/2 server; WebSocket frames with declared lengths of 10..124 bytes and fragmented (continuation) messages longer than the byte bound")
+
+	gen := "thorough tier only: a GENERATED rule-set family - every ordered pair of 18 templates (one per segment-kind combination of the grammar: literal, '*', '**', variable with / without pattern, verb suffix, nested field path, wildcard before a literal; the second rule binds other fields) registered in both orders, every ASCII request path of 0..8 bytes, verbs GET / POST: soundness, completeness / literal precedence and order independence together"
+	for _, id := range []string{"C01", "C02"} {
+		props[id].Bounds["thorough"] += "; " + gen
+		props[id].Harnesses = append(props[id].Harnesses, HarnessSpec{Name: "VerifH_match_generated", ThoroughOnly: true, Covers: []string{"generated", "dispatched", "not-dispatched"}})
+	}
 }
